@@ -51,59 +51,27 @@ RULE = (
 )
 TRUSTED = [
     "harness components call try_connect exactly once per _connect with what their declarative spec makes available",
-    "connect_helper._check_times and FinamTimeError of pulls before the producer's first publication are outside "
-    "the model (generator keeps info times of one component equal and >= the composition start)",
+    "connect_helper._check_times (static slots ignored, non-static infos of one component must agree) and the "
+    "FinamTimeError of pulls before the producer's first publication are outside the model (generator keeps info "
+    "times of one component equal and >= the composition start)",
 ]
 ASSUMPTIONS = [
     "an Info is modelled by its time field; grid/units compatibility is C07",
     "payload tokens: output o publishes the value 10+o",
-    "C06_fixpoint needs: every slot owned by exactly one component, and components with transfer rules use "
-    "cache=True (with cache=False the real code skips a transfer rule every second call: finding F9 candidate)",
+    "PARTIAL: C06_fixpoint_full (final done-set = least fixed point of the derivation rules; acyclic => Success; "
+    "stall set = owners of underivable items) is stated in coq/properties/C06.v but NOT proved; proved instead: "
+    "C06_fixpoint_partial + C06_stuck_idx_exact (Success => every declared item done; Circular L => L = exactly the "
+    "positions, in list order, of the components with an outstanding declared item).  The least-fixed-point "
+    "characterisation is checked against the real finam on every generated case by the Python monitor (lfp)",
+    "the full statement needs every slot owned by exactly one component (wf_setup)",
+    "findings F19 (cache=False skipped transfer rules every second call -> false circular-coupling error) and F20 "
+    "(_check_times compared the unset time of a static slot) are fixed in /repo (98cb380, 2216e00); their witnesses "
+    "are in CORPUS and such setups are part of the default stream",
 ]
 
 DAY = 86400 * 10**6
 STAT = {"CONNECTING": "CONNECTING", "CONNECTING_IDLE": "CONNECTING_IDLE", "CONNECTED": "CONNECTED",
         "INITIALIZED": "INITIALIZED"}
-
-
-# ----------------------------------------------------------------------------------------------
-# known-finding classifiers (used only if the integrator registers them in known_findings.json)
-# ----------------------------------------------------------------------------------------------
-def _has_rules(case, c):
-    return any(case["ins"][i].get("rules") is not None for i in c["ins"]) or \
-        any(case["outs"][o].get("rules") is not None for o in c["outs"])
-
-
-def cache_false_with_rules(case, obs=None, failure=None):
-    cs = case["comps"] if case["kind"] == "comp" else [case["helper"]]
-    return any((not c["cache"]) and _has_rules(case, c) for c in cs)
-
-
-def static_output_after_nonstatic(case, obs=None, failure=None):
-    cs = case["comps"] if case["kind"] == "comp" else [case["helper"]]
-    for c in cs:
-        seen_ns = False
-        for o in c["outs"]:
-            if case["outs"][o]["static"]:
-                if seen_ns:
-                    return True
-            else:
-                seen_ns = True
-    return False
-
-
-classifiers = {
-    "cache_false_with_rules": cache_false_with_rules,
-    "static_output_after_nonstatic": static_output_after_nonstatic,
-}
-
-
-def _registered(name):
-    try:
-        data = json.loads((Path(__file__).resolve().parents[2] / "known_findings.json").read_text())
-    except Exception:
-        return False
-    return any(e.get("property") == ID and e.get("status") == "known" and e.get("classifier") == name for e in data)
 
 
 # ----------------------------------------------------------------------------------------------
@@ -152,7 +120,7 @@ def _gen_comp(rng, malformed=False):
     # outputs
     for k in range(n):
         no = rng.choice([0, 1, 1, 1, 2, 2, 3])
-        statics = sorted([rng.random() < 0.12 for _ in range(no)], reverse=True)  # static outputs first
+        statics = [rng.random() < 0.12 for _ in range(no)]  # static outputs in any position
         for s in statics:
             comps[k]["outs"].append(len(outs))
             outs.append(_out(static=s))
@@ -289,7 +257,7 @@ def _gen_script(rng):
         r = rng.random()
         if r < 0.3:
             sp["own"] = t
-        elif r < 0.5 and cache:
+        elif r < 0.5:
             other_i = [j for j in h["ins"] if j != i]
             rs = []
             if other_i and rng.random() < 0.5:
@@ -306,7 +274,7 @@ def _gen_script(rng):
         r = rng.random()
         if r < 0.2:
             sp["own"] = t
-        elif r < 0.5 and cache:
+        elif r < 0.5:
             rs = []
             if h["ins"] and rng.random() < 0.6:
                 rs.append(["in", rng.choice(h["ins"]), True])
@@ -390,29 +358,24 @@ def _corpus():
                   "ins": [_inp(0, own=0), _inp(1, own=0, pull=True)],
                   "outs": [_out(prov_data=[[], 10]), _out(prov_info=[[["in", 0]], 0], prov_data=[[], 11])],
                   "comps": [_comp([], [0], 0), _comp([0], [1], 0), _comp([1], [], 0)]})
+    # witnesses of the two repaired findings (fix commits 98cb380, 2216e00)
+    # F19: cache=False + transfer rule, consumer listed before its source: false circular-coupling error
+    cs += _perms({"kind": "comp", "start": 0, "auto_start": False, "ins": [_inp(0, rules=[["val", 0]])],
+                  "outs": [_out(prov_info=[[], 0], prov_data=[[], 10])],
+                  "comps": [_comp([0], [], 0, cache=False), _comp([], [0], 0)]})
+    cs += _perms({"kind": "comp", "start": 0, "auto_start": False,
+                  "ins": [_inp(0, own=0), _inp(1, own=0, pull=True)],
+                  "outs": [_out(prov_info=[[], 0], prov_data=[[], 10]), _out(rules=[["in", 0, True]], prov_data=[[], 11])],
+                  "comps": [_comp([1], [], 0), _comp([0], [1], 0, cache=False), _comp([], [0], 0)]})
+    # F20: a static output declared after a non-static one: FinamTimeError when the component became connected
+    cs.append({"kind": "comp", "start": 0, "auto_start": False, "ins": [],
+               "outs": [_out(prov_info=[[], 0], prov_data=[[], 10]), _out(static=True, prov_info=[[], 0], prov_data=[[], 11])],
+               "comps": [_comp([], [0, 1], 0)]})
+    cs += _perms({"kind": "comp", "start": 0, "auto_start": False,
+                  "ins": [_inp(0, own=0, pull=True), _inp(1, own=0, pull=True, static=True)],
+                  "outs": [_out(prov_info=[[], 0], prov_data=[[], 10]), _out(static=True, own=0, prov_data=[[], 11])],
+                  "comps": [_comp([0, 1], [], 0), _comp([], [0, 1], 0)]})
     return cs
-
-
-def _witnesses():
-    """Inputs of the two preliminary findings; only generated when registered as known findings."""
-    ws = []
-    if _registered("cache_false_with_rules"):
-        ws.append({"kind": "comp", "start": 0, "auto_start": False, "ins": [_inp(0, rules=[["val", 0]])],
-                   "outs": [_out(prov_info=[[], 0], prov_data=[[], 10])],
-                   "comps": [_comp([0], [], 0, cache=False), _comp([], [0], 0)]})
-    if _registered("static_output_after_nonstatic"):
-        ws.append({"kind": "comp", "start": 0, "auto_start": False, "ins": [],
-                   "outs": [_out(prov_info=[[], 0], prov_data=[[], 10]), _out(static=True, prov_info=[[], 0], prov_data=[[], 11])],
-                   "comps": [_comp([], [0, 1], 0)]})
-    return ws
-
-
-def _admissible(case):
-    if cache_false_with_rules(case) and not _registered("cache_false_with_rules"):
-        return False
-    if static_output_after_nonstatic(case) and not _registered("static_output_after_nonstatic"):
-        return False
-    return True
 
 
 CORPUS = _corpus()
@@ -420,20 +383,18 @@ CORPUS = _corpus()
 
 def generate(rng, tier):
     quick = tier == "quick"
-    cases = list(CORPUS) + _witnesses()
+    cases = list(CORPUS)
     n_shapes, n_rand, n_script = (60, 1500, 900) if quick else (400, 20000, 12000)
     k = 0
     while k < n_shapes:
         c = _gen_comp(rng)
-        if len(c["comps"]) > 4 or not _admissible(c):
+        if len(c["comps"]) > 4:
             continue
         k += 1
         cases += _perms(c, limit=24 if len(c["comps"]) <= 3 or not quick else 8)
     k = 0
     while k < n_rand:
         c = _gen_comp(rng, malformed=(k % 7 == 6))
-        if not _admissible(c):
-            continue
         k += 1
         cases.append(c)
         if k % 25 == 0:
